@@ -689,7 +689,7 @@ class BaseDiscretizer(BaseEstimator, TransformerMixin):
             # adding each value/label
             for value, label in self.labels_per_values[feature].items():
                 # checking that nan where dropped
-                if not (not self.dropna and value == self.str_nan):
+                if not (not self.features_dropna.get(feature, self.dropna) and value == self.str_nan):
                     # initiating feature summary (default value/label)
                     feature_summary = {
                         "feature": feature,
